@@ -45,6 +45,7 @@ def hstrp(tbits, sn, options=b"", payload=b"", version=0):
 
 RCP_CALL = bytes.fromhex("024108050000d20400000e03")  # captured RCP call request (HDAP, little-endian length)
 
+TMP_BADTEXT = bytes.fromhex("0900a1000f000000010a0000020a00000100d8415103")
 DG = {
     "CONNECT": hstrp(T_CONNECT, 0),
     "CLOSE": hstrp(T_CLOSE, 0),
@@ -77,9 +78,13 @@ DG = {
     "SVC_TP": hstrp(T_OPT, 1, OPTS, hdap(0x12, [0, 1], b"\x00\x01")),
     "SVC_DDS": hstrp(0x00, 2, b"", hdap(0x14, [0, 1], b"\x00")),
     "SVC_ZERO": hstrp(T_OPT, 1, OPTS, b"\x00" + hdap(0x11, [0, 3], IP_A)[1:]),
+    # a text message whose text octets are no valid UTF-16 (lone surrogate, odd length): as data and inside a REJECT (the handler logs
+    # what it rejects / what was rejected)
+    "TMP_BADTEXT": hstrp(0x00, 3, b"", TMP_BADTEXT),
+    "REJECT_TMP_BADTEXT": hstrp(T_REJECT, 3, b"", TMP_BADTEXT),
 }
 ACK_BEARING = {"CONNECT_ACK", "CLOSE_ACK", "ACK", "ACK_OPT"}
-DATA = {"REG_A", "REG_B", "OFF_A", "OFF_B", "STATUS_A", "RCP_NOOPT", "RCP_OPT", "REG_A_SNFFFF", "REG_A_RTP", "OFF_A_RTP_ONLY", "REG_B_XPT"}
+DATA = {"REG_A", "REG_B", "OFF_A", "OFF_B", "STATUS_A", "RCP_NOOPT", "RCP_OPT", "REG_A_SNFFFF", "REG_A_RTP", "OFF_A_RTP_ONLY", "REG_B_XPT", "TMP_BADTEXT"}
 MALFORMED = {"TRUNC5", "TRUNC_PAYLOAD", "BADMAGIC", "UNKOPT", "UNKSVC", "SVC_TP", "SVC_DDS", "SVC_ZERO"}
 REG_IP = {"REG_A": IP_A, "REG_B": IP_B, "REG_A_SNFFFF": IP_A, "REG_A_RTP": IP_A, "REG_B_XPT": IP_B}
 OFF_IP = {"OFF_A": IP_A, "OFF_B": IP_B, "OFF_A_RTP_ONLY": IP_A}
@@ -324,7 +329,7 @@ class Single(explore.System):
                     self.m_registry[ip_str(OFF_IP[kind])] = "Offline"
                 if others:
                     viol.append(("unexpected_extra_datagram", case))
-        elif kind == "REJECT":
+        elif kind in ("REJECT", "REJECT_TMP_BADTEXT"):
             if len(outs) > 1:
                 viol.append(("reject_answered_more_than_once", case))
         if self.impl.hstrp_connected != self.m_connected:
